@@ -3,13 +3,15 @@
 
    MODEL  (ford_perms)   mirrors ford/sourceform.py as it is:
      - FortranContainer.__init__ parsing loop: `child_permission` / `self.permission` threading,
-       bare `public|private|protected` statements, ATTRIB_RE access statements collected in
-       `attr_dict`, `contains`, constructors receiving `self.permission` / `child_permission`;
+       bare `public|private|protected` statements (which also reach the entities declared before
+       them that carry no access attribute: _set_default_permission), ATTRIB_RE access statements
+       collected in `attr_dict` under _attr_key(name) (letter case and blanks dropped), `contains`,
+       constructors receiving `self.permission` / `child_permission`;
      - line_to_variables attribute parsing (last of public/private/protected wins);
      - FortranType._initialize / FortranBoundProcedure._initialize (only public/private recognised);
      - FortranCodeUnit.process_attribs (iteration order functions, subroutines, types, interfaces,
-       absinterfaces, variables; per item the last access attribute wins; the dictionary entry is
-       deleted after the first item of that name);
+       absinterfaces, variables; per item the last access attribute wins; every item of a name
+       sees the entry);
      - FortranType.correlate: constructor.permission = type.permission (all_procs look-up);
      - FortranProcedure.permission for procedures of non-generic interface blocks;
      - FortranSubmodule: self.permission = "private" before the loop.
@@ -116,8 +118,27 @@ Fixpoint tstruct_ok (inc : bool) (tb : list tstmt) : bool :=
   | _ :: r => tstruct_ok inc r
   end.
 
-(* dictionary keys: `name.strip().lower()` on the access statement, `item.name.lower()` at look-up *)
-Definition key (n : str) : str := lower n.
+(* attr_dict keys, _attr_key(name) = "".join(name.split()).lower(): white space and letter case dropped *)
+Definition key (n : str) : str := lower (filter (fun c => negb (is_space c)) n).
+(* all_procs keys: name.lower() *)
+Definition pkey (n : str) : str := lower n.
+
+(* self.permission after the rest of the lines: the last list-less access statement among them, else cur *)
+Fixpoint cur_after (cur : perm) (rest : list sstmt) : perm :=
+  match rest with
+  | [] => cur
+  | SDefault p :: r => cur_after p r
+  | _ :: r => cur_after cur r
+  end.
+
+(* permission of a declaration: the last access attribute FORD recognises on it; without one, the
+   permission inherited at the declaration, overwritten by every later list-less access statement
+   (_set_default_permission) *)
+Definition decl_perm (ats : list perm) (cur : perm) (rest : list sstmt) : perm :=
+  match ats with
+  | [] => cur_after cur rest
+  | _ => last_perm ats cur
+  end.
 
 (* The parsing loop of a module body.  The loop state is (self.permission = child_permission,
    incontains, the entity lists, attr_dict); the two accumulators are independent of each other,
@@ -129,12 +150,12 @@ Fixpoint scan_ents (cur : perm) (body : list sstmt) : list ent :=
   | SDefault p :: r => scan_ents p r
   | SAccess _ _ :: r => scan_ents cur r
   | SVar pa n ats :: r =>
-      mk_ent (if pa then KParam else KVar) [] n (last_perm ats cur) :: scan_ents cur r
+      mk_ent (if pa then KParam else KVar) [] n (decl_perm ats cur r) :: scan_ents cur r
   | SType n ats tb :: r =>
-      mk_ent KType [] n (last_perm (filter is_acc ats) cur) :: tchildren n tb ++ scan_ents cur r
-  | SIface k n :: r => mk_ent (ekind_of_ikind k) [] n cur :: scan_ents cur r
+      mk_ent KType [] n (decl_perm (filter is_acc ats) cur r) :: tchildren n tb ++ scan_ents cur r
+  | SIface k n :: r => mk_ent (ekind_of_ikind k) [] n (decl_perm [] cur r) :: scan_ents cur r
   | SContains :: r => scan_ents cur r
-  | SProc f n :: r => mk_ent (if f then KFun else KSub) [] n cur :: scan_ents cur r
+  | SProc f n :: r => mk_ent (if f then KFun else KSub) [] n (decl_perm [] cur r) :: scan_ents cur r
   end.
 
 (* attr_dict restricted to the access attributes, as (key, attribute) in statement order *)
@@ -180,17 +201,8 @@ Fixpoint last_for (k : str) (d : list (str * perm)) (dflt : perm) : perm :=
   | (k', p) :: r => last_for k r (if str_eqb k k' then p else dflt)
   end.
 
-(* `del attr_dict[k]` *)
-Definition remove_key (k : str) (d : list (str * perm)) : list (str * perm) :=
-  filter (fun kp => negb (str_eqb k (fst kp))) d.
-
-Fixpoint apply_attrs (items : list ent) (d : list (str * perm)) : list ent :=
-  match items with
-  | [] => []
-  | e :: r =>
-      let k := key (e_name e) in
-      set_perm e (last_for k d (e_perm e)) :: apply_attrs r (remove_key k d)
-  end.
+Definition apply_attrs (items : list ent) (d : list (str * perm)) : list ent :=
+  map (fun e => set_perm e (last_for (key (e_name e)) d (e_perm e))) items.
 
 (* all_procs: routines by lower-cased name, then non-abstract interfaces overwrite *)
 Definition in_all_procs (e : ent) : bool :=
@@ -200,7 +212,7 @@ Fixpoint set_first (k : str) (p : perm) (es : list ent) : list ent :=
   match es with
   | [] => []
   | e :: r =>
-      if in_all_procs e && str_eqb k (key (e_name e)) then set_perm e p :: r
+      if in_all_procs e && str_eqb k (pkey (e_name e)) then set_perm e p :: r
       else e :: set_first k p r
   end.
 
@@ -209,7 +221,7 @@ Definition set_last (k : str) (p : perm) (es : list ent) : list ent := rev (set_
 
 (* FortranType.correlate: if self.name.lower() in all_procs: constructor.permission = self.permission *)
 Definition fix_constructors (es : list ent) : list ent :=
-  fold_left (fun acc t => set_last (key (e_name t)) (e_perm t) acc) (of_class 2 es) es.
+  fold_left (fun acc t => set_last (pkey (e_name t)) (e_perm t) acc) (of_class 2 es) es.
 
 (* FortranProcedure.permission: a procedure of a non-generic interface reports parent.permission *)
 Definition ifprocs (es : list ent) : list ent :=
@@ -246,8 +258,7 @@ Definition ford_perms (sk : scope_kind) (body : list sstmt) : option (list ent) 
    A single value summarises the answer: Private = not accessible, Protected = accessible and
    protected, Public = accessible. *)
 
-Definition is_blank (c : ascii) : bool := (code c =? 32) || (code c =? 9).
-Definition canon (n : str) : str := lower (filter (fun c => negb (is_blank c)) n).
+Definition canon (n : str) : str := lower (filter (fun c => negb (is_space c)) n).
 Definition same_id (a b : str) : bool := str_eqb (canon a) (canon b).
 
 Definition has (p : perm) (l : list perm) : bool := existsb (perm_eqb p) l.
@@ -367,7 +378,7 @@ Fixpoint twf (ph : nat) (tb : list tstmt) : bool :=
   | TBind _ ats :: r => (2 <=? ph) && ok_attrs ats && twf 3 r
   end.
 
-(* ------------------------------------------------------------------ regions (known findings) *)
+(* ------------------------------------------------------------------ regions *)
 
 Definition declares (n : str) (st : sstmt) : bool :=
   match st with
@@ -375,38 +386,28 @@ Definition declares (n : str) (st : sstmt) : bool :=
   | _ => false
   end.
 
-(* region 1: an access statement without a list stands after the declaration of n *)
-Fixpoint late_default (n : str) (body : list sstmt) : bool :=
-  match body with
-  | [] => false
-  | st :: r => if declares n st then existsb is_default r else late_default n r
-  end.
-
-(* region 2: n is given PROTECTED together with an accessibility that FORD's single keyword per entity
-   cannot carry: an explicit PUBLIC or PRIVATE, or the PRIVATE default *)
+(* region 2 (recorded finding): n is given PROTECTED together with an accessibility that FORD's single
+   keyword per entity cannot carry: an explicit PUBLIC or PRIVATE, or the PRIVATE default *)
 Definition protected_given (n : str) (body : list sstmt) : bool := has Protected (explicit_specs n body).
 Definition protected_conflict (n : str) (body : list sstmt) : bool :=
   let ex := explicit_specs n body in
   has Protected ex && (has Public ex || has Private ex || perm_eqb (default_access body) Private).
 
-(* region 3: the identifier is declared more than once in the scope (several generic blocks of one
-   name, or a type and its constructor interface): attr_dict[name] is deleted after the first *)
-Definition count_decls (n : str) (body : list sstmt) : nat := length (filter (declares n) body).
-Definition declared_twice (n : str) (body : list sstmt) : bool := 2 <=? count_decls n body.
+(* region 4 (no finding — outside C04_partial): the identifier is also declared by ANOTHER statement that
+   can carry access attributes (a variable or type declaration).  Entities of kind variable / type may
+   have one such declaration, their own; a procedure or interface none — so the constructor interface
+   of a derived type lies here (C04_constructor covers it), repeated generic blocks do not. *)
+Definition carries_attrs (st : sstmt) : bool :=
+  match st with SVar _ _ _ | SType _ _ _ => true | _ => false end.
+Definition count_attr_decls (n : str) (body : list sstmt) : nat :=
+  length (filter (fun st => declares n st && carries_attrs st) body).
+Definition kind_carries (k : ekind) : bool :=
+  match k with KVar | KParam | KType => true | _ => false end.
+Definition attr_twin (k : ekind) (n : str) (body : list sstmt) : bool :=
+  negb (count_attr_decls n body <=? (if kind_carries k then 1 else 0)).
 
-(* region 4: some identifier is written with blanks (`operator (+)`): FORD compares the raw text *)
-Definition blank_free (n : str) : bool := forallb (fun c => negb (is_blank c)) n.
-Definition stmt_blank_free (st : sstmt) : bool :=
-  match st with
-  | SAccess _ ns => forallb blank_free ns
-  | SVar _ m _ | SType m _ _ | SIface _ m | SProc _ m => blank_free m
-  | _ => true
-  end.
-Definition names_blank_free (body : list sstmt) : bool := forallb stmt_blank_free body.
-
-Definition region (body : list sstmt) (n : str) : nat :=
-  (if late_default n body then 1 else 0) + (if protected_conflict n body then 2 else 0)
-  + (if declared_twice n body then 4 else 0) + (if names_blank_free body then 0 else 8).
+Definition region (body : list sstmt) (k : ekind) (n : str) : nat :=
+  (if protected_conflict n body then 2 else 0) + (if attr_twin k n body then 4 else 0).
 
 Definition top_level (e : ent) : bool :=
   match e_kind e with KComp | KBind => false | _ => true end.
